@@ -348,6 +348,13 @@ def sqrt_of(x: Rat) -> Rat:
     return Rat.sym(name)
 
 
+def sign_atom(name: str) -> Rat:
+    """A symbol g with g**2 == 1 (a sign)."""
+    nm = f"sgn[{name}]"
+    _SQRT_DEFS[nm] = Rat.const(1)
+    return Rat.sym(nm)
+
+
 # ----------------------------------------------------------------------
 def eval_expr(e: ast.expr, env, *, on_name=None, on_attr=None, on_call=None) -> Rat:
     """Evaluate an arithmetic expression to a Rat.  ``env`` maps local names to Rat;
